@@ -71,19 +71,19 @@ type mcell struct {
 }
 
 type mevalCtx struct {
-	info    *types.Info
-	pk      *packages.Package
-	prog    *Program
-	cell    mcell
-	env     map[types.Object]mval
-	left    types.Object
-	right   types.Object
-	result  *mval
-	resultI types.Object // the index variable of the result slot
-	stackO  types.Object
-	undec   []string
+	info     *types.Info
+	pk       *packages.Package
+	prog     *Program
+	cell     mcell
+	env      map[types.Object]mval
+	left     types.Object
+	right    types.Object
+	result   *mval
+	resultI  types.Object // the index variable of the result slot
+	stackO   types.Object
+	undec    []string
 	panicked string
-	depth   int
+	depth    int
 }
 
 func (c *mevalCtx) kindOf(side byte) okind {
